@@ -19,7 +19,7 @@ VARIABLES doc, stk, phase
 vars == <<doc, stk, phase>>
 
 KeyTexts == {"a", "b", "c", "U", "Nw", "T", "St"}
-ValTexts == {"1", "x", "~", "true", "U"}
+ValTexts == {"1", "x", "~", "true", "U", "Nw"}
 Room == MaxEv - Len(doc)
 Top == stk[Len(stk)]
 CanStart == phase = "gen" /\ (doc = <<>> \/ stk # <<>>)
